@@ -445,6 +445,9 @@ EDGES = [
     "typedef __builtin_va_list va_list; void f(int n, ...) { va_list ap, bp = {}; __builtin_va_start(ap, n); __builtin_va_copy(bp, ap); (void)(va_list){}; (void)(va_list){0}; __builtin_va_end(ap); }",
     "typedef __builtin_va_list va_list; va_list g; int f(void) { return sizeof g + _Alignof(va_list) + sizeof *&g + (g == g); }", "typedef __builtin_va_list va_list; va_list g; void *f(void) { return &g.x; }",
     "typedef __builtin_va_list va_list; va_list g, h; void f(void) { g = h; g++; -g; *g; g[0]; g(); }", "typedef __builtin_va_list va_list; va_list f(va_list a) { return a; } void g(va_list a) { f(a); }",
+    # an element designated after a string literal that initialises the same static array: at every index up to the array's end
+    # (inside the literal, on its terminator, directly behind it, further on), for every element width
+    *(["char s[8] = {\"abc\", [%d] = 'x'};" % k for k in range(8)] + ["unsigned w[16] = {U\"aaaaa\", [%d] = 0xffffffff};" % k for k in (4, 5, 6, 7, 15)] + ["unsigned short h[6] = {u\"ab\", [%d] = 7, 8};" % k for k in (1, 2, 3, 4)] + ["struct { char a[6]; int k; } v = {{\"ab\", [%d] = 'z'}, 1};" % k for k in (2, 3, 4, 5)] + ["void f(void) { static char s[5] = {\"\", [%d] = 1}; char t[5] = {\"\", [%d] = 1}; (void)s; (void)t; }" % (k, k) for k in (0, 1, 2, 4)]),
 ]
 
 
